@@ -27,7 +27,8 @@
 namespace c06 {
 namespace vi = vf::it;
 
-constexpr int MOVED = -99;
+constexpr int MOVED      = -99; // key of a moved-from element
+constexpr int SELF_MOVED = -98; // key of an element of the self-move-destructive type after x = move(x)
 
 // ------------------------------------------------------------------ predicate / comparator result types
 // C06_TRUTHY=1 builds drive every predicate-taking algorithm with results that are boolean-testable but are
@@ -122,6 +123,8 @@ inline std::string show(Seq const& s, bool tags = true)
         if (i) { o += ' '; }
         if (s[i].key == MOVED) {
             o += "mv";
+        } else if (s[i].key == SELF_MOVED) {
+            o += "selfmv";
         } else {
             o += std::to_string(s[i].key);
         }
@@ -325,6 +328,12 @@ inline float guard_value<float>(int i)
 {
     return (i & 1) ? -0.0f : 1.5f;
 }
+template <>
+inline double guard_value<double>(int i)
+{
+    return (i & 1) ? 1.0 : 2.0;
+}
+inline bool same_obj(double a, double b) { return std::memcmp(&a, &b, sizeof a) == 0; }
 inline bool same_obj(signed char a, signed char b) { return a == b; }
 inline bool same_obj(char a, char b) { return a == b; }
 inline bool same_obj(short a, short b) { return a == b; }
@@ -493,14 +502,16 @@ struct Trial {
             vf::diverge(sym, show(obs), show(exp));
             return false;
         }
-        bool keys = true, tags = true, moved = false;
+        bool keys = true, tags = true, moved = false, selfmoved = false;
         for (std::size_t i = 0; i < obs.size(); ++i) {
             if (obs[i].key != exp[i].key) { keys = false; }
             if (obs[i].tag != exp[i].tag) { tags = false; }
             if (obs[i].key == MOVED && exp[i].key != MOVED) { moved = true; }
+            if (obs[i].key == SELF_MOVED) { selfmoved = true; }
         }
         if (keys && (tags || !with_tags)) { return true; }
-        std::snprintf(sym, sizeof sym, "%s:%s", name, moved ? "holds-moved-from-element" : (!keys ? "values-differ" : "identity-differs"));
+        std::snprintf(sym, sizeof sym, "%s:%s", name,
+            selfmoved ? "holds-self-move-assigned-element" : (moved ? "holds-moved-from-element" : (!keys ? "values-differ" : "identity-differs")));
         vf::diverge(sym, show(obs), show(exp));
         return false;
     }
@@ -608,6 +619,11 @@ template <>
 inline unsigned char fresh_value<unsigned char>()
 {
     return 250;
+}
+template <>
+inline double fresh_value<double>()
+{
+    return 4321.25;
 }
 template <>
 inline signed char fresh_value<signed char>()
